@@ -828,7 +828,7 @@ func (p *TermPool) iteIntLeaves(t *Term, depth int) bool {
 		return false
 	}
 	for _, br := range t.Args[1:] {
-		if _, _, ok := p.intView(br); ok {
+		if _, _, ok := p.intView(br); ok || br.IsConst() {
 			return true
 		}
 		if p.iteIntLeaves(br, depth+1) {
@@ -836,6 +836,27 @@ func (p *TermPool) iteIntLeaves(t *Term, depth int) bool {
 		}
 	}
 	return false
+}
+
+// fpSpecial classifies a float constant: 1 NaN, 2 +inf, 3 -inf, 0 anything else.
+func fpSpecial(t *Term) int {
+	if !t.IsConst() || t.Sort.K != SFP {
+		return 0
+	}
+	w := t.Sort.W
+	sb := fpPrec(w)
+	expAll := (uint64(1)<<uint(w-sb) - 1) << uint(sb-1)
+	mant := t.C & (uint64(1)<<uint(sb-1) - 1)
+	if t.C&expAll != expAll {
+		return 0
+	}
+	if mant != 0 {
+		return 1
+	}
+	if t.C>>uint(w-1)&1 == 1 {
+		return 3
+	}
+	return 2
 }
 
 // liftIte distributes a binary float operation over an if-then-else operand when that exposes
@@ -865,6 +886,52 @@ func (p *TermPool) fpBin(op Op, a, b *Term) *Term {
 	w := a.Sort.W
 	if op == OpFPAdd || op == OpFPSub || op == OpFPMul {
 		if r := p.liftIte(a, b, func(x, y *Term) *Term { return p.fpBin(op, x, y) }); r != nil {
+			return r
+		}
+		// an exactly represented integer combined with NaN or an infinity (lemma
+		// intfloat-special, checked by selftest)
+		special := func(c, v *Term, cFirst bool) *Term {
+			k := fpSpecial(c)
+			if k == 0 || v.IsConst() {
+				return nil
+			}
+			x, _, ok := p.intView(v)
+			if !ok {
+				return nil
+			}
+			sb := fpPrec(w)
+			expAll := (uint64(1)<<uint(w-sb) - 1) << uint(sb-1)
+			nan := p.FPBits(expAll|uint64(1)<<uint(sb-2), w)
+			pinf, ninf := p.FPBits(expAll, w), p.FPBits(expAll|uint64(1)<<uint(w-1), w)
+			if k == 1 {
+				return nan
+			}
+			switch op {
+			case OpFPMul:
+				xneg := p.bvCmp(OpBVSlt, x, p.BV(0, x.Sort.W))
+				xzero := p.Eq(x, p.BV(0, x.Sort.W))
+				same, flip := pinf, ninf
+				if k == 3 {
+					same, flip = ninf, pinf
+				}
+				return p.Ite(xzero, nan, p.Ite(xneg, flip, same))
+			case OpFPAdd:
+				return c
+			case OpFPSub:
+				if cFirst {
+					return c // inf - x
+				}
+				if k == 2 {
+					return ninf // x - (+inf)
+				}
+				return pinf
+			}
+			return nil
+		}
+		if r := special(a, b, true); r != nil {
+			return r
+		}
+		if r := special(b, a, false); r != nil {
 			return r
 		}
 		// an exactly represented integer (never -0) combined with a constant zero of either
@@ -1062,8 +1129,35 @@ func (p *TermPool) fpPred(op Op, a *Term) *Term {
 	return p.intern(&Term{Op: op, Sort: sortBool, Args: []*Term{a}})
 }
 
+// iteDivLeaves: an if-then-else tree (depth <= 4) with a leaf that FPRound can rewrite (an
+// integer-valued float, or a quotient of two such).
+func (p *TermPool) iteDivLeaves(t *Term, depth int) bool {
+	if t.Op != OpIte || depth > 4 {
+		return false
+	}
+	for _, br := range t.Args[1:] {
+		if _, _, ok := p.intView(br); ok {
+			return true
+		}
+		if br.Op == OpFPDiv {
+			_, _, ok1 := p.intView(br.Args[0])
+			_, _, ok2 := p.intView(br.Args[1])
+			if ok1 && ok2 {
+				return true
+			}
+		}
+		if p.iteDivLeaves(br, depth+1) {
+			return true
+		}
+	}
+	return false
+}
+
 func (p *TermPool) FPRound(mode int, a *Term) *Term {
 	w := a.Sort.W
+	if a.Op == OpIte && p.iteDivLeaves(a, 0) {
+		return p.Ite(a.Args[0], p.FPRound(mode, a.Args[1]), p.FPRound(mode, a.Args[2]))
+	}
 	if !a.IsConst() {
 		if _, _, ok := p.intView(a); ok {
 			return a
@@ -1089,7 +1183,17 @@ func (p *TermPool) FPRound(mode int, a *Term) *Term {
 				case rmRTP:
 					adj = p.Ite(p.And(inexact, p.Not(neg)), p.bvBin(OpBVAdd, q, p.BV(1, W)), q)
 				}
-				orig := p.intern(&Term{Op: OpFPRoundInt, Sort: a.Sort, Args: []*Term{a}, P1: mode})
+				// divisor zero: x / +0 is NaN for x = 0 and an infinity with the sign of x
+				// otherwise, and rounding to an integer leaves both unchanged (lemma
+				// intfloat-div-round-zero, checked by selftest)
+				xw := x1.Sort.W
+				xNeg := p.bvCmp(OpBVSlt, x1, p.BV(0, xw))
+				xZero := p.Eq(x1, p.BV(0, xw))
+				expAll := (uint64(1)<<uint(w-fpPrec(w)) - 1) << uint(fpPrec(w)-1)
+				posInf := p.FPBits(expAll, w)
+				negInf := p.FPBits(expAll|uint64(1)<<uint(w-1), w)
+				nan := p.FPBits(expAll|uint64(1)<<uint(fpPrec(w)-2), w)
+				orig := p.Ite(xZero, nan, p.Ite(xNeg, negInf, posInf))
 				// a zero result is -0 exactly when the operands have different signs (x = 0 counts as +)
 				negZero := p.And(p.Eq(adj, zero), neg)
 				val := p.Ite(negZero, p.FPBits(uint64(1)<<uint(w-1), w), p.FPFromBV(adj, true, w))
